@@ -73,15 +73,23 @@ func Verif_C02_Faults(withQ int) {
 		vSet(g, pp, "A", vAct(menu...))
 		vSet(g, pp, "B", vAct(vActRender, vActNothing, vActError, vActBadSyntax))
 	}
-	if withQ == 1 {
-		// q sorts after p; r sorts... use "a" to have a package processed BEFORE p
-		other := "q"
-		if verifsym.Bool() {
-			other = "a"
-		}
-		w.addPkg(other, true, "h1:new-o", nil, []string{other + ".go"}, []vTypeSpec{{name: "T", tags: vBoth}})
+	addOther := func(other string) {
+		w.addPkg(other, true, "h1:new-"+other, nil, []string{other + ".go"}, []vTypeSpec{{name: "T", tags: vBoth}})
 		vSet("ga", "example.com/m/"+other, "T", vAct(vActRender, vActError, vActBadSyntax))
 		vSet("gb", "example.com/m/"+other, "T", vActNothing)
+	}
+	switch withQ {
+	case 1:
+		// one more package, processed after ("q") or before ("a") p
+		if verifsym.Bool() {
+			addOther("a")
+		} else {
+			addOther("q")
+		}
+	case 2:
+		// a package before AND a package after p
+		addOther("a")
+		addOther("q")
 	}
 	all := verifsym.Bool()
 	sumPath := w.root + "/gengo.sum"
